@@ -9,10 +9,20 @@ What the generated text means.  For every translated function `f` the module con
 
 `None` means "an error of the generated program": a division or remainder by zero, a shift by the width or more, a signed
 operation whose mathematical result is not a value of its type, an access outside a modelled array, an access through a null
-pointer, a loop that ran out of the fuel its call site passes.  Values are N; NEGATIVE SIGNED VALUES ARE NOT REPRESENTED: a
-signed subtraction whose result would be negative, a conversion to a signed type of a value above its maximum, reading a
-`char` >= 128 are errors (None) as well, never a wrapped value.  The tie theorems prove `f args = Some (model args)` for all
-in-range arguments, so every one of these checks has to be discharged by the proof for every input.
+pointer, a loop that ran out of the fuel its call site passes.
+
+Signed values.  Unsigned objects are N.  A signed value is carried in N as long as it is known not to be negative (a literal,
+a promoted unsigned char/short, a comparison result ...): + * << & | ^ / % >> on such operands stay in N, with the check
+`result < 2^(w-1)` where the result can grow.  A signed
+value that can be negative is carried in Z: a cell read through a signed type (plain `char` is signed here: `sext 8 c`), every
+signed subtraction and pointer difference, unary minus and `~` on a signed operand, and every operation one of whose operands already is in Z (Z.add/sub/mul with the check
+`-2^(w-1) <= r < 2^(w-1)`, Z.quot/Z.rem, Z.land/lor/lxor, Z.shiftr = arithmetic shift as gcc/clang do it, `<<` of a negative
+value an error, Z.ltb/leb/eqb).  Conversions as clang's casts show them: Z -> unsigned w is `Z.to_N (z mod 2^w)`, Z -> wider
+signed is the identity, Z -> narrower signed checks the range.  Where the translation needs a natural number (array index,
+shift count under an unsigned operand, argument or result of a translated function) a Z value is checked >= 0 and converted.
+A signed local keeps one representation: carried in Z on one path and in N on another (join, loop) is Unsupported.  The tie
+theorems prove `f args = Some (model args)` for all in-range arguments, so every one of these checks has to be discharged by
+the proof for every input.
 
 Types.  Every C integer type has a width and a signedness (unsigned char 8, unsigned short 16, unsigned int 32, unsigned long
 / long long 64, int 32 signed, char 8 signed, long 64 signed ...; typedefs through clang's desugared type).  A term of an
@@ -50,11 +60,13 @@ import sys
 DEFAULT_FUEL = "130%nat"          # 2 * 64 + 2: enough for Euclid on 64-bit words and for the Newton loops (which need 40)
 
 PRELUDE = """(* generated by tools/c2int.py from the current sources - do not edit *)
-From Coq Require Import NArith List Bool.
+From Coq Require Import NArith ZArith List Bool.
 Import ListNotations.
 Local Open Scope N_scope.
 
 Definition wrap (w x : N) : N := x mod 2 ^ w.
+(* the value of a cell of a signed type of width w (two's complement) *)
+Definition sext (w c : N) : Z := if c <? 2 ^ (w - 1) then Z.of_N c else (Z.of_N c - Z.of_N (2 ^ w))%Z.
 
 (* checked store l[i] := v ; None = outside the list *)
 Fixpoint upd (l : list N) (i : nat) (v : N) : option (list N) :=
@@ -77,7 +89,7 @@ INT_TYPES = {
 CLZ = {"__builtin_clz": 32, "__builtin_clzl": 64, "__builtin_clzll": 64}
 RESERVED = {"at", "as", "in", "fun", "let", "if", "then", "else", "end", "match", "with", "return", "using", "for", "where",
             "fix", "cofix", "forall", "exists", "Type", "Prop", "Set", "fuel", "wrap", "upd", "load", "store", "tt", "true",
-            "false", "Some", "None", "inl", "inr", "nat", "N", "list", "option", "length", "skipn", "nth_error", "mod"}
+            "false", "Some", "None", "inl", "inr", "nat", "N", "Z", "sext", "list", "option", "length", "skipn", "nth_error", "mod"}
 
 
 class Unsupported(Exception):
@@ -315,6 +327,10 @@ def referenced_vars(nodes):
             if n.get("kind") == "DeclRefExpr" and n["referencedDecl"].get("kind") in ("VarDecl", "ParmVarDecl"):
                 if n["referencedDecl"]["id"] not in ids:
                     ids.append(n["referencedDecl"]["id"])
+            if n.get("kind") == "MemberExpr" and n.get("isArrow"):
+                r = root_var(n["inner"][0])
+                if r is not None and "fld:%s:%s" % (r, n.get("name")) not in ids:
+                    ids.append("fld:%s:%s" % (r, n.get("name")))
     return ids
 
 
@@ -418,13 +434,69 @@ class Fn:
 
     def expr(self, n, env, pre):
         """integer rvalue -> (term, (w, signed))"""
-        v = self.value(n, env, pre)
-        if v[0] != "i":
-            self.bad("integer expected, got a pointer", n)
+        v = self.as_n(self.value(n, env, pre), pre, n)
         return v[1], v[2]
 
+    # ---- signed values that may be negative are carried in Z: ('z', Z term, (w, True))
+    def as_n(self, v, pre, n):
+        """a value where the translation needs a natural number (index, shift count, result ...): a Z-carried one must be >= 0"""
+        if v[0] == "z":
+            pre.append(("guard", "Z.ltb %s 0" % par(v[1])))              # negative: not representable here
+            return ("i", "Z.to_N %s" % par(v[1]), v[2])
+        if v[0] != "i":
+            self.bad("integer expected, got a pointer or void", n)
+        return v
+
+    def zt(self, v):
+        return v[1] if v[0] == "z" else "Z.of_N %s" % par(v[1])
+
+    def zlit(self, k):
+        return "(%d)%%Z" % k
+
+    def zrange(self, term, ty, pre):
+        w = ty[0]
+        pre.append(("guard", "orb (Z.ltb %s %s) (Z.ltb %s %s)" % (par(term), self.zlit(-(1 << (w - 1))), self.zlit((1 << (w - 1)) - 1), par(term))))
+
+    def convert_value(self, v, dst, pre, n):
+        """integer conversion of a value (either representation) to the type dst"""
+        if v[0] == "i":
+            return ("i", self.convert(v[1], v[2], dst, pre, n), dst)
+        (ws, _), (wd, sd) = v[2], dst
+        if not sd:
+            return ("i", "Z.to_N (Z.modulo %s %s)" % (par(v[1]), self.zlit(1 << wd)), dst)       # reduction modulo 2^wd
+        if wd < ws:
+            self.zrange(v[1], dst, pre)                                  # implementation-defined when out of range: an error here
+        return ("z", v[1], dst)
+
+    def zarith(self, op, a, b, t, pre, n, const_b=None):
+        """signed a op b at type t with at least one operand carried in Z; overflow is an error, a negative result is not"""
+        w = t[0]
+        x, y = self.zt(a), self.zt(b)
+        if op in ("+", "-", "*"):
+            term = "Z.%s %s %s" % ({"+": "add", "-": "sub", "*": "mul"}[op], par(x), par(y))
+            self.zrange(term, t, pre)
+            return ("z", term, t)
+        if op in ("/", "%"):
+            pre.append(("guard", "Z.eqb %s 0" % par(y)))
+            term = "Z.%s %s %s" % ("quot" if op == "/" else "rem", par(x), par(y))       # C truncates towards zero
+            if op == "/":
+                self.zrange(term, t, pre)
+            return ("z", term, t)
+        if op in ("<<", ">>"):
+            if const_b is None or const_b >= w:
+                pre.append(("guard", "orb (Z.ltb %s 0) (Z.leb %s %s)" % (par(y), self.zlit(w), par(y))))
+            if op == ">>":
+                return ("z", "Z.shiftr %s %s" % (par(x), par(y)), t)     # arithmetic shift (gcc, clang)
+            pre.append(("guard", "Z.ltb %s 0" % par(x)))                 # left shift of a negative value
+            term = "Z.shiftl %s %s" % (par(x), par(y))
+            self.zrange(term, t, pre)
+            return ("z", term, t)
+        if op in ("&", "|", "^"):
+            return ("z", "Z.%s %s %s" % ({"&": "land", "|": "lor", "^": "lxor"}[op], par(x), par(y)), t)
+        self.bad("operator %s" % op, n)
+
     def value(self, n, env, pre):
-        """-> ('i', term, ty) | ('p', arrid, off, elem, nullflag) | ('null',)"""
+        """-> ('i', N term, ty) | ('z', Z term, signed ty) | ('p', arrid, off, elem, nullflag) | ('null',)"""
         k = n.get("kind")
         if k in ("ParenExpr", "ConstantExpr"):
             return self.value(n["inner"][0], env, pre)
@@ -442,6 +514,8 @@ class Fn:
             return ("i", lit(v), t[1:])
         if k == "DeclRefExpr":
             return self.read_var(n, env)
+        if k == "MemberExpr":
+            return self.member(n, env)
         if k in ("ImplicitCastExpr", "CStyleCastExpr"):
             return self.cast(n, env, pre)
         if k == "UnaryOperator":
@@ -474,12 +548,25 @@ class Fn:
         if v[0] == "int":
             if v[2] is None:
                 self.bad("read of %s before it is assigned" % rd["name"], n)
-            return ("i", v[2], v[1])
+            return ("z" if len(v) > 3 else "i", v[2], v[1])
         if v[0] == "ptr":
             if v[3] is None:
                 self.bad("read of pointer %s before it is assigned" % rd["name"], n)
             return ("p", v[2], v[3], v[1], v[4])
         self.bad("use of %s" % rd["name"], n)
+
+    def member(self, n, env):
+        """ctx->f for a structure parameter ctx: the member is a Gallina parameter of its own (read only)"""
+        b = strip_paren(n["inner"][0])
+        if not n.get("isArrow") or b.get("kind") != "DeclRefExpr":
+            self.bad("member access other than <structure parameter>->member", n)
+        key = "fld:%s:%s" % (b["referencedDecl"]["id"], n.get("name"))
+        v = env.get(key)
+        if v is None:
+            self.bad("member %s of something that is not a structure parameter" % n.get("name"), n)
+        if v[0] == "int":
+            return ("i", v[2], v[1])
+        return ("p", v[2], v[3], v[1], v[4])
 
     def global_array(self, g, env, n):
         key = "arr:" + g["id"]
@@ -514,11 +601,13 @@ class Fn:
         if ck == "ArrayToPointerDecay":
             return self.value(sub, env, pre)
         if ck == "IntegralCast":
-            term, ty = self.expr(sub, env, pre)
+            v = self.value(sub, env, pre)
+            if v[0] not in ("i", "z"):
+                self.bad("integral cast of a pointer or void", n)
             t = self.ety(n)
             if t[0] != "int":
                 self.bad("cast to %s" % (t,), n)
-            return ("i", self.convert(term, ty, t[1:], pre, n), t[1:])
+            return self.convert_value(v, t[1:], pre, n)
         if ck == "BitCast":
             v = self.value(sub, env, pre)
             t = self.ety(n)
@@ -551,18 +640,22 @@ class Fn:
             return ("i", "(if %s then %s else %s)" % ((c, "1", "0") if neg else (c, "0", "1")), (32, True))
         if op == "+":
             return self.value(sub, env, pre)
-        term, ty = self.expr(sub, env, pre)
+        v = self.value(sub, env, pre)
+        if v[0] not in ("i", "z"):
+            self.bad("operand of unary %s" % op, n)
+        term, ty = v[1], v[2]
         t = self.ety(n)[1:]
         if ty != t:
             self.bad("operand type of unary %s" % op, n)
         w, s = t
         if op == "~":
             if s:
-                self.bad("~ on a signed operand (negative result)", n)
+                return ("z", "Z.lnot %s" % par(self.zt(v)), t)
             return ("i", "N.lxor %s %s" % (par(term), lit((1 << w) - 1)), t)
         if op == "-":
             if s:
-                self.bad("unary minus on a signed operand", n)
+                pre.append(("guard", "Z.eqb %s %s" % (par(self.zt(v)), self.zlit(-(1 << (w - 1))))))
+                return ("z", "Z.opp %s" % par(self.zt(v)), t)
             return ("i", "wrap %d (%s - %s)" % (w, lit(1 << w), term), t)
         self.bad("unary %s" % op, n)
 
@@ -608,7 +701,7 @@ class Fn:
         x = self.fresh("c" if elem[0] == 8 else "e")
         pre.append(("bind", [x], ("raw", "load %s %s" % (env[arrid][1], par(self.addoff(off, idx))))))
         if elem[1]:
-            pre.append(("guard", "%s <=? %s" % (lit(1 << (elem[0] - 1)), x)))   # a negative char/short/int cell
+            return ("z", "sext %d %s" % (elem[0], x), elem)              # a cell read through a signed type may be negative
         return ("i", x, elem)
 
     def load(self, n, env, pre):
@@ -621,12 +714,12 @@ class Fn:
         if lv[0] == "var":
             v = env[lv[1]]
             if v[0] == "int":
-                if val[0] != "i":
+                if val[0] not in ("i", "z"):
                     self.bad("pointer assigned to an integer", n)
                 nm = self.fresh(self.cname[lv[1]])
                 pre.append(("let", nm, val[1]))
-                env[lv[1]] = ("int", v[1], nm)
-                return ("i", nm, v[1])
+                env[lv[1]] = ("int", v[1], nm) + (("z",) if val[0] == "z" else ())
+                return (val[0], nm, v[1])
             if v[0] == "ptr":
                 if val[0] != "p":
                     self.bad("assignment of a non-pointer (or NULL) to pointer %s" % self.cname[lv[1]], n)
@@ -639,6 +732,8 @@ class Fn:
                 return ("p", val[1], nm, elem, val[4])
         else:
             _, arrid, off, elem, flag = lv
+            if val[0] == "z":                                            # the cell holds the two's complement pattern
+                val = ("i", "Z.to_N (Z.modulo %s %s)" % (par(val[1]), self.zlit(1 << elem[0])), elem)
             if val[0] != "i":
                 self.bad("store of a pointer", n)
             self.arr_cell(env, arrid, elem, n)
@@ -664,7 +759,7 @@ class Fn:
             if v[0] == "int":
                 if v[2] is None:
                     self.bad("read of %s before it is assigned" % self.cname[lv[1]], n)
-                return ("i", v[2], v[1])
+                return ("z" if len(v) > 3 else "i", v[2], v[1])
             if v[3] is None:
                 self.bad("read of %s before it is assigned" % self.cname[lv[1]], n)
             return ("p", v[2], v[3], v[1], v[4])
@@ -686,6 +781,9 @@ class Fn:
         w, s = t
         if w < 32:
             self.bad("++/-- on a type narrower than int", n)
+        if old[0] == "z":
+            res = self.assign_to(lv, self.zarith("+" if op == "++" else "-", old, ("i", "1", t), t, pre, n), env, pre, n)
+            return old if post else res
         if op == "++":
             if s:
                 pre.append(("guard", "%s <=? %s + 1" % (lit(1 << (w - 1)), old[1])))
@@ -767,7 +865,7 @@ class Fn:
         b = self.value(r, env, pre)
         if a[0] == "p" or b[0] == "p":
             return self.ptr_arith(op, a, b, pre, n)
-        if a[0] != "i" or b[0] != "i":
+        if a[0] not in ("i", "z") or b[0] not in ("i", "z"):
             self.bad("operands of %s" % op, n)
         t = self.ety(n)
         if t[0] != "int":
@@ -775,9 +873,14 @@ class Fn:
         t = t[1:]
         if a[2] != t or (op not in ("<<", ">>") and b[2] != t):
             self.bad("operand types of %s are not the result type (expected clang's implicit casts)" % op, n)
+        if a[0] == "z" or (b[0] == "z" and t[1]) or (op == "-" and t[1]):
+            return self.zarith(op, a, b, t, pre, n, self.const_of(r))        # a signed difference may be negative: in Z
+        b = self.as_n(b, pre, n)                                         # a shift count carried in Z under an unsigned left operand
         return ("i", self.arith(op, a[1], b[1], t, pre, n, self.const_of(r)), t)
 
     def ptr_arith(self, op, a, b, pre, n):
+        if a[0] == "z" or b[0] == "z":
+            self.bad("pointer arithmetic with a possibly negative integer", n)
         if op == "+" and a[0] == "p" and b[0] == "i":
             return ("p", a[1], self.addoff(a[2], b[1]), a[3], a[4])
         if op == "+" and a[0] == "i" and b[0] == "p":
@@ -792,8 +895,7 @@ class Fn:
                 self.bad("difference of pointers with different element widths", n)
             if b[2] == "0":
                 return ("i", a[2], (64, True))
-            pre.append(("guard", "%s <? %s" % (par(a[2]), par(b[2]))))           # negative ptrdiff_t: not represented
-            return ("i", "%s - %s" % (par(a[2]), par(b[2])), (64, True))
+            return ("z", "Z.sub (Z.of_N %s) (Z.of_N %s)" % (par(a[2]), par(b[2])), (64, True))   # ptrdiff_t, possibly negative
         self.bad("pointer arithmetic %s" % op, n)
 
     def compound(self, n, env, pre):
@@ -808,20 +910,22 @@ class Fn:
                 self.bad("compound assignment on a pointer", n)
             new = self.ptr_arith(op, old, rv, pre, n)
             return self.assign_to(lv, new, env, pre, n)
-        if rv[0] != "i":
+        if rv[0] not in ("i", "z"):
             self.bad("compound assignment operand", n)
         ct = self.tnode(n["computeResultType"], n)
         lt = self.tnode(n["computeLHSType"], n)
         if ct[0] != "int" or lt[0] != "int":
             self.bad("compound assignment type", n)
-        a = self.convert(old[1], old[2], lt[1:], pre, n)
-        b = rv[1]
+        av = self.convert_value(old, lt[1:], pre, n)
         if op not in ("<<", ">>"):
             if rv[2] != ct[1:]:
                 self.bad("operand type of %s= is not the computation type" % op, n)
-        res = self.arith(op, a, b, ct[1:], pre, n, self.const_of(r))
-        res = self.convert(res, ct[1:], old[2], pre, n)
-        return self.assign_to(lv, ("i", res, old[2]), env, pre, n)
+        if av[0] == "z" or (rv[0] == "z" and ct[2]) or (op == "-" and ct[2]):
+            resv = self.zarith(op, av, rv, ct[1:], pre, n, self.const_of(r))
+        else:
+            rv = self.as_n(rv, pre, n)
+            resv = ("i", self.arith(op, av[1], rv[1], ct[1:], pre, n, self.const_of(r)), ct[1:])
+        return self.assign_to(lv, self.convert_value(resv, old[2], pre, n), env, pre, n)
 
     def conditional(self, n, env, pre):
         c, a, b = n["inner"]
@@ -832,8 +936,12 @@ class Fn:
         ea, eb = dict(env), dict(env)
         va = self.value(a, ea, pa)
         vb = self.value(b, eb, pb)
-        if va[0] != "i" or vb[0] != "i" or va[2] != vb[2]:
+        if va[0] not in ("i", "z") or vb[0] not in ("i", "z") or va[2] != vb[2]:
             self.bad("arms of ?: (integer arms of one type expected)", n)
+        kind = "i"
+        if va[0] != vb[0]:                                               # one arm may be negative: both in Z
+            va, vb = ("z", self.zt(va), va[2]), ("z", self.zt(vb), vb[2])
+        kind = va[0]
         for k_ in ea:                      # element widths learnt inside the arms
             if k_.startswith("arr:"):
                 env[k_] = ea[k_]
@@ -842,11 +950,11 @@ class Fn:
                 env[k_] = eb[k_]
         if not pa and not pb:
             t1, t2 = (vb[1], va[1]) if neg else (va[1], vb[1])
-            return ("i", "(if %s then %s else %s)" % (ct, t1, t2), va[2])
+            return (kind, "(if %s then %s else %s)" % (ct, t1, t2), va[2])
         x = self.fresh("c")
         code = ("if", ct, neg, with_pre(pa, ("ret", va[1])), with_pre(pb, ("ret", vb[1])))
         pre.append(("bind", [x], code))
-        return ("i", x, va[2])
+        return (kind, x, va[2])
 
     def cond(self, n, env, pre):
         """-> (bool term, negated?)"""
@@ -862,6 +970,13 @@ class Fn:
             self.unsequenced(m["inner"][0], m["inner"][1], m)
             a = self.value(m["inner"][0], env, pre)
             b = self.value(m["inner"][1], env, pre)
+            if a[0] in ("i", "z") and b[0] in ("i", "z") and "z" in (a[0], b[0]):
+                if a[2] != b[2]:
+                    self.bad("comparison of different types (expected clang's implicit casts)", m)
+                x, y = par(self.zt(a)), par(self.zt(b))
+                return {"<": ("Z.ltb %s %s" % (x, y), False), ">": ("Z.ltb %s %s" % (y, x), False),
+                        "<=": ("Z.leb %s %s" % (x, y), False), ">=": ("Z.leb %s %s" % (y, x), False),
+                        "==": ("Z.eqb %s %s" % (x, y), False), "!=": ("Z.eqb %s %s" % (x, y), True)}[op]
             if a[0] == "i" and b[0] == "i":
                 if a[2] != b[2]:
                     self.bad("comparison of different types (expected clang's implicit casts)", m)
@@ -890,9 +1005,19 @@ class Fn:
             b, nb = self.cond(m["inner"][1], e2, p2)
             ta = "negb (%s)" % a if na else a
             tb = "negb (%s)" % b if nb else b
+            if any(bd[0] != "guard" for bd in p2):
+                # the right operand reads memory: it is evaluated (and may fail) only when the left one does not decide
+                for k_ in e2:
+                    if k_.startswith("arr:"):
+                        env[k_] = e2[k_]
+                x = self.fresh("t")
+                if m["opcode"] == "&&":
+                    code = ("if", ta, False, with_pre(p2, ("ret", tb)), ("ret", "false"))
+                else:
+                    code = ("if", ta, False, ("ret", "true"), with_pre(p2, ("ret", tb)))
+                pre.append(("bind", [x], code))
+                return x, False
             for bd in p2:
-                if bd[0] != "guard":
-                    self.bad("memory access / call in the right operand of %s" % m["opcode"], m)
                 gate = ta if m["opcode"] == "&&" else ("negb (%s)" % ta)
                 pre.append(("guard", "andb (%s) (%s)" % (gate, bd[1])))
             return "%s (%s) (%s)" % ("andb" if m["opcode"] == "&&" else "orb", ta, tb), False
@@ -901,6 +1026,8 @@ class Fn:
             if v[4] is None:
                 self.bad("truth value of a pointer that is not a nullable parameter", m)
             return v[4], True
+        if v[0] == "z":
+            return "Z.eqb %s 0" % par(v[1]), True
         if v[0] != "i":
             self.bad("condition", m)
         return "%s =? 0" % par(v[1]), True
@@ -944,9 +1071,12 @@ class Fn:
                 self.unsequenced(a, b, n)
         terms, backs = [], []
         for a, p in zip(args, sig["params"]):
+            if p["kind"] == "struct":
+                self.bad("call to %s, which takes a structure" % fname, n)
             v = self.value(a, env, pre)
             if p["kind"] == "int":
-                if v[0] != "i" or v[2] != p["ty"]:
+                v = self.as_n(v, pre, n)
+                if v[2] != p["ty"]:
                     self.bad("argument type in call to %s" % fname, n)
                 terms.append(par(v[1]))
                 continue
@@ -1017,7 +1147,7 @@ class Fn:
             v = env[i]
             if v[0] == "int":
                 nm = self.fresh(self.cname[i])
-                env[i] = ("int", v[1], nm)
+                env[i] = ("int", v[1], nm) + tuple(v[3:])
             elif v[0] == "ptr":
                 nm = self.fresh(self.cname[i])
                 env[i] = ("ptr", v[1], v[2], nm, v[4])
@@ -1027,8 +1157,17 @@ class Fn:
             names.append(nm)
         return names
 
+    def reps(self, env, ids):
+        return tuple("z" if (env[i][0] == "int" and len(env[i]) > 3) else "n" for i in ids)
+
+    def set_reps(self, env, ids, reps):
+        for i, r in zip(ids, reps):
+            v = env[i]
+            if v[0] == "int":
+                env[i] = v[:3] + (("z",) if r == "z" else ())
+
     def gtype(self, v):
-        return "list N" if v[0] == "arr" else "N"
+        return "list N" if v[0] == "arr" else "Z" if (v[0] == "int" and len(v) > 3) else "N"
 
     def stmts(self, lst, env, k):
         if not lst:
@@ -1103,12 +1242,12 @@ class Fn:
             if not inits:
                 env[d["id"]] = ("int", t[1:], None)
                 return
-            term, ty = self.expr(inits[0], env, pre)
-            if ty != t[1:]:
+            v = self.value(inits[0], env, pre)
+            if v[0] not in ("i", "z") or v[2] != t[1:]:
                 self.bad("initialiser type of %s" % d["name"], d)
             nm = self.fresh(d["name"])
-            pre.append(("let", nm, term))
-            env[d["id"]] = ("int", t[1:], nm)
+            pre.append(("let", nm, v[1]))
+            env[d["id"]] = ("int", t[1:], nm) + (("z",) if v[0] == "z" else ())
             return
         if t[0] == "ptr":
             if not inits:
@@ -1141,13 +1280,17 @@ class Fn:
         while True:
             cur = [i for i in live if i not in drop]
             again = []
+            seen = []
 
-            def leaf(e, cur=cur, again=again):
+            def leaf(e, cur=cur, again=again, seen=seen):
                 for i in cur:
                     if not self.defined(e[i]):
                         again.append(i)
                 if again:
                     raise Retry()
+                if seen and seen[0] != self.reps(e, cur):
+                    raise Unsupported("a signed variable is carried in Z on one path and in N on another in %s" % self.name)
+                seen.append(self.reps(e, cur))
                 for i in cur:                       # pointer moved to another array in one arm only?
                     if e[i][0] == "ptr" and env[i][2] is not None and e[i][2] != env[i][2]:
                         raise Unsupported("pointer %s moves to another array in %s" % (self.cname[i], self.name))
@@ -1171,6 +1314,8 @@ class Fn:
             if i in drop:
                 v = env2[i]
                 env2[i] = ("int", v[1], None) if v[0] == "int" else ("ptr", v[1], v[2], None, v[4])
+        if seen:
+            self.set_reps(env2, cur, seen[0])
         names = self.rebind(env2, cur)
         if not cur and pure(code):
             return k.next(env2)
@@ -1312,6 +1457,7 @@ class Fn:
             state_out = [i for i in mod if i not in drop]
             again = []
             learnt = {}
+            seen_out = []
 
             def tup(e, ids):
                 t = self.tuple_of(e, ids)
@@ -1326,6 +1472,9 @@ class Fn:
                 for a in e:
                     if a.startswith("arr:"):
                         learnt[a] = e[a]
+                if seen_out and seen_out[0] != self.reps(e, state_out):
+                    raise Unsupported("a signed variable leaves a loop of %s carried in Z on one path and in N on another" % self.name)
+                seen_out.append(self.reps(e, state_out))
                 return ("ret", ("inl %s" % par(tup(e, state_out))) if returns else tup(e, state_out))
 
             def recur(e):
@@ -1335,6 +1484,8 @@ class Fn:
                 for i in state_in:
                     if e[i][0] == "ptr" and e[i][2] != env[i][2]:
                         raise Unsupported("pointer %s moves to another array inside a loop of %s" % (self.cname[i], self.name))
+                if self.reps(e, state_in) != self.reps(env, state_in):
+                    raise Unsupported("a signed variable changes between N and Z inside a loop of %s" % self.name)
                 args = [flags_ for flags_ in flags] + self.tuple_of(env, ro) + [env[a][1] for a in arrs] + self.tuple_of(e, state_in)
                 return ("raw", " ".join([lname, "fuel"] + args))
 
@@ -1389,12 +1540,15 @@ class Fn:
         for f in flags:
             params.append("(%s : bool)" % f)
         for i in ro:
-            params.append("(%s : N)" % self.tuple_of(env, [i])[0])
+            params.append("(%s : %s)" % (self.tuple_of(env, [i])[0], self.gtype(env[i])))
         for a in arrs:
             params.append("(%s : list N)" % env[a][1])
         for i in state_in:
             params.append("(%s : %s)" % (self.tuple_of(env, [i])[0], self.gtype(env[i])))
-        st_ty = " * ".join(self.gtype(env[i]) for i in state_out) if state_out else "unit"
+        out_env = dict(env)
+        if seen_out:
+            self.set_reps(out_env, state_out, seen_out[0])
+        st_ty = " * ".join(self.gtype(out_env[i]) for i in state_out) if state_out else "unit"
         if returns:
             st_ty = "(%s) + %s" % (st_ty, self.result_type())
         text = "Fixpoint %s (fuel : nat) %s {struct fuel} : option (%s) :=\n  match fuel with\n  | O => None\n  | S fuel =>\n%s\n  end.\n" % (
@@ -1408,12 +1562,23 @@ class Fn:
                 env2[i] = ("int", v[1], None) if v[0] == "int" else ("ptr", v[1], v[2], None, v[4])
         args = flags + self.tuple_of(env, ro) + [env[a][1] for a in arrs] + self.tuple_of(env, state_in)
         callt = ("raw", " ".join([lname, par(fuel)] + args))
+        if seen_out:
+            self.set_reps(env2, state_out, seen_out[0])
         names = self.rebind(env2, state_out)
         if not returns:
             return ("bind", names, callt, k.next(env2))
         r = self.fresh("res")
         o = self.fresh("out")
         return ("bind", [r], callt, ("case", r, [("inl %s" % pat(names, True), k.next(env2)), ("inr %s" % o, k.ret_raw(o))]))
+
+    def struct_fields(self, p):
+        q = (p["type"].get("desugaredQualType") or p["type"].get("qualType")).strip()
+        if not q.endswith("*") or q.count("*") != 1:
+            return None
+        base = base_type(" ".join(w for w in q[:-1].split() if w not in ("const", "volatile")), self.tu)
+        if not base.startswith("struct "):
+            return None
+        return self.tu.records.get(base[len("struct "):].strip())
 
     def result_type(self):
         comps = (["N"] if self.ret is not None else []) + ["list N" for _ in self.outs]
@@ -1462,6 +1627,19 @@ class Fn:
                 c = strip_paren(c)
                 if c.get("kind") == "DeclRefExpr":
                     tested.add(c["referencedDecl"]["id"])
+        for m in walk(body):                # a pointer handed to a translated callee that tests it may be NULL as well
+            if m.get("kind") == "CallExpr":
+                c0 = m["inner"][0]
+                while c0.get("kind") in ("ImplicitCastExpr", "ParenExpr"):
+                    c0 = c0["inner"][0]
+                sg = self.tu.sigs.get(c0.get("referencedDecl", {}).get("name")) if c0.get("kind") == "DeclRefExpr" else None
+                if sg:
+                    for a, sp in zip(m["inner"][1:], sg["params"]):
+                        if sp.get("kind") == "ptr" and sp.get("nullable"):
+                            while a.get("kind") in ("ImplicitCastExpr", "ParenExpr", "CStyleCastExpr"):
+                                a = a["inner"][-1]
+                            if a.get("kind") == "DeclRefExpr":
+                                tested.add(a["referencedDecl"]["id"])
         changed = True
         while changed:                      # a local pointer initialised from a parameter and tested: the parameter is nullable
             changed = False
@@ -1478,7 +1656,31 @@ class Fn:
         for p in params:
             if "name" not in p:
                 raise Unsupported("%s: unnamed parameter" % self.name)
-            t = parse_type_at(self, p)
+            try:
+                t = parse_type_at(self, p)
+            except Unsupported:
+                fields = self.struct_fields(p)
+                if fields is None:
+                    raise
+                # a pointer to a structure, used for reading its members: one Gallina parameter per member, in declaration order
+                for f in fields:
+                    ft = parse_type(f["type"], self.tu)
+                    fn = self.fresh("%s_%s" % (p["name"], f["name"]))
+                    key = "fld:%s:%s" % (p["id"], f["name"])
+                    self.cname[key] = fn
+                    if ft[0] == "int":
+                        env[key] = ("int", ft[1:], fn)
+                        gparams.append("(%s : N)" % fn)
+                    elif ft[0] == "ptr":
+                        akey = "arr:" + key
+                        env[akey] = ("arr", fn, ft[1][0] if ft[1] is not None else None)
+                        self.arrbase[akey] = fn
+                        env[key] = ("ptr", ft[1], akey, "0", None)
+                        gparams.append("(%s : list N)" % fn)
+                    else:
+                        raise Unsupported("%s: member %s of type %s" % (self.name, f["name"], ft))
+                sigparams.append({"kind": "struct"})
+                continue
             nm = self.fresh(p["name"])
             self.cname[p["id"]] = p["name"]
             if t[0] == "int":
@@ -1531,13 +1733,15 @@ def parse_type_at(fn, n):
 
 class TU:
     def __init__(self, ast):
-        self.funcs, self.globals, self.typedefs, self.sigs = {}, {}, {}, {}
+        self.funcs, self.globals, self.typedefs, self.sigs, self.records = {}, {}, {}, {}, {}
         for n in ast.get("inner", []):
             kd = n.get("kind")
             if kd == "FunctionDecl" and any(c.get("kind") == "CompoundStmt" for c in n.get("inner", [])):
                 self.funcs[n["name"]] = n
             elif kd == "TypedefDecl":
                 self.typedefs[n["name"]] = n["type"]
+            elif kd == "RecordDecl" and n.get("completeDefinition") and n.get("tagUsed") == "struct" and n.get("name"):
+                self.records[n["name"]] = [c for c in n.get("inner", []) if c.get("kind") == "FieldDecl"]
             elif kd == "VarDecl":
                 self.note_global(n)
 
